@@ -235,6 +235,39 @@ theorem extend_keeps_sharing_partial (fuel a pos b : Nat) (s : St) (r : Nat) (s'
   exact ⟨⟨h1, h2⟩, fun f' p' b' => insertObj_hit_a f' a p' b' s' r h1,
     fun f' a' p' ha' => insertObj_hit_b f' a' p' b s' r ha' h2⟩
 
+/-- a second time field holding the same array as a field that was already extended is served from the memo: it gets
+the very array made for the first name (two names of one array stay one array when both names are extended) -/
+theorem extend_second_name_served_from_memo (us : Units) (nm : String) (k : Kind) (hk : k = .time ∨ k = .timeDelta)
+    (o no : Nat) (u : Option (List String)) (l : Nat)
+    (nm2 : String) (o2 no2 : Nat) (u2 : Option (List String)) (l2 : Nat) (s : St) (r : Nat) (oa ob : Obj)
+    (hoa : s.heap[o]? = some oa) (hob : s.heap[o2]? = some ob) (hka : oa.kind = k) (hkb : ob.kind = k)
+    (hnd : oa.ndim = ob.ndim) (hit : s.find o = some r) :
+    extendLeaf us nm k o no u l (.leaf nm2 k o2 no2 u2 l2) s = .ok (.leaf nm k r (objLen s.heap r) u l, s) :=
+  extendLeaf_served_from_memo us nm k hk o no u l nm2 o2 no2 u2 l2 s r oa ob hoa hob hka hkb hnd hit
+
+/-- **the mechanism of the listed finding** `extend:shared-array-one-name-missing` is a theorem about the model: padding
+(`append_empty` / `prepend_empty`) a time field whose array was already extended under another name does not pad — the
+memo hands out the array made for the other name, so the name the other dataset lacks holds the other dataset's values.
+The dataset-level theorems
+
+  `extend_refines_records` (all kinds):  `splitSharing d.fields e.fields = false` → compatible sharing →
+      `abs (extend d e) = aExtendFields (abs d) (abs e)`
+  `extend_keeps_sharing`:  `splitSharing d.fields e.fields = false` → two paths of `d` that reach one array object
+      before `dsExtend` reach one array object afterwards
+
+have to exclude exactly this situation; `splitSharing` ("an array is held under a name the other dataset lacks and under
+a name it has", `Model/DatasetRecords.lean`) is that hypothesis as a decidable predicate, evaluated by the driver for
+every `extend` and compared with the same question asked of the real datasets and of the reference.  Both dataset-level
+theorems are NOT proved (the invariant "memo entries of dataset objects survive the loop over the fields, and no other
+entry has such a key" is missing); proved are the field-level pieces: `extend_time_field_content`,
+`extend_sigma_field_content`, `extend_keeps_sharing_partial`, `extend_second_name_served_from_memo` and this one. -/
+theorem pad_of_second_name_served_from_memo (front : Bool) (n : Nat) (nm : String) (k : Kind) (hk : k = .time ∨ k = .timeDelta)
+    (o no : Nat) (u : Option (List String)) (l : Nat) (s : St) (r : Nat) (ob : Obj)
+    (hob : s.heap[o]? = some ob) (hkb : ob.kind = k) (hit : s.find o = some r) :
+    ∃ s', padField front n (.leaf nm k o no u l) s = .ok (.leaf nm k r (objLen s'.heap r) u l, s') ∧
+      s'.find o = some r :=
+  padField_served_from_memo front n nm k hk o no u l s r ob hob hkb hit
+
 /-- the sort key of a time field is the VALUE the field holds (third component of a row, after jd1 and jd2), not a
 number derived from the Julian date: epochs that are different in the field have different keys -/
 theorem sort_key_is_field_value (j1 j2 v : Scalar) (rest : Row) (hv : v ≠ .nan) :
@@ -500,6 +533,16 @@ example : (extendLeaf {} "s" .sigma 0 2 (some ["bit"]) 3 (.leaf "s" .sigma 1 1 (
       (fun p => (p.2.heap.getD 3 default).rows) = some [[.num 1, .num 2], [.num 3, .num 4], [.num 5, .num 6]] := by
   decide +kernel
 
+/-- the situation of the listed finding: `sent` and `received` are one array (object 0), the other dataset has only
+`received`; and its absence when the other dataset has both names -/
+example : splitSharing [.leaf "sent" .time 0 2 none 3, .leaf "received" .time 0 2 none 3] [.leaf "received" .time 1 1 none 3]
+    = true := by decide +kernel
+example : splitSharing [.leaf "sent" .time 0 2 none 3, .leaf "received" .time 0 2 none 3]
+    [.leaf "received" .time 1 1 none 3, .leaf "sent" .time 1 1 none 3] = false := by decide +kernel
+/-- the hypotheses of the two `…served_from_memo` theorems are satisfiable: after the insert of (0, 1) the memo knows 0 -/
+example : ((insertObj 3 0 1 1 { heap := [exGps, exUtc], conv := exConv }).toOption.bind (fun p => p.2.find 0)) = some 2 := by
+  decide +kernel
+
 /-- does the history run? (executable) -/
 def runs : W → List Op → Bool
   | _, [] => true
@@ -548,6 +591,8 @@ end Midgard.Props.C09
 #print axioms Midgard.Props.C09.extend_time_field_content
 #print axioms Midgard.Props.C09.extend_keeps_sharing_partial
 #print axioms Midgard.Props.C09.extend_sigma_field_content
+#print axioms Midgard.Props.C09.extend_second_name_served_from_memo
+#print axioms Midgard.Props.C09.pad_of_second_name_served_from_memo
 #print axioms Midgard.Props.C09.extend_float_converts_units
 #print axioms Midgard.Props.C09.sort_is_stable_permutation
 #print axioms Midgard.Props.C09.sort_refines
